@@ -971,7 +971,10 @@ class GenericPlainRegistry(Generic[QuantityT, UnitT], metaclass=RegistryMeta):
 
         accumulators: dict[str | None, int] = defaultdict(int)
         accumulators[None] = 1
-        self._get_root_units_recurse(input_units, 1, accumulators)
+        # Equal containers share one memo entry whatever the order their units were
+        # written in: walk them in a fixed order, so that the (floating point) factor
+        # does not depend on which spelling was asked about first.
+        self._get_root_units_recurse(dict(sorted(input_units.items())), 1, accumulators)
 
         factor = accumulators[None]
         units = self.UnitsContainer(
